@@ -21,7 +21,8 @@ from engine import fakes_transfer as ft
 from engine.fakes_transfer import ST, UP, DOWN, TLoop
 
 from aioslsk.exceptions import ConnectionWriteError, InvalidStateTransition
-from aioslsk.protocol.messages import PeerTransferQueue
+from aioslsk.events import PeerInitializedEvent
+from aioslsk.protocol.messages import PeerTransferQueue, PeerTransferRequest
 from aioslsk.transfer import manager as tm
 from aioslsk.transfer.manager import TransferManager, _RequestFlag
 from aioslsk.transfer.model import Transfer
@@ -106,7 +107,7 @@ def _at(c, var, s):
 
 
 class _PeerConn:
-    """message connection of the peer as seen by the PeerTransferQueue handler"""
+    """message connection of the peer as seen by the PeerTransferQueue / PeerTransferRequest handlers"""
 
     def __init__(self, username):
         self.username = username
@@ -115,9 +116,21 @@ class _PeerConn:
     def queue_message(self, m):
         self.queued.append(m)
 
+    async def send_message(self, m):
+        await ft.LAT.wait('peer_connection.send_message')
+        self.queued.append(m)
+
+
+def _slot(rec):
+    """which handle of the transfer a negotiation task belongs to"""
+    return 'remote_queue' if rec['kind'] == '_queue_remotely' else 'transfer'
+
+
+TICKET = 4711
+
 
 def h_cancel(c, kind='download', init=('QUEUED',), op='abort', target=0, cycles=1, sends=2,
-             outcomes=('ok', 'slow_ok', 'slow_err'), replies=1, max_steps=90, tail=False):
+             outcomes=('ok', 'slow_ok', 'slow_err'), replies=1, max_steps=90, tail=False, peer_starts=False):
     loop = TLoop()
     up = kind == 'upload'
     phase = {'after_return': False, 'sends': 0}
@@ -178,7 +191,7 @@ def h_cancel(c, kind='download', init=('QUEUED',), op='abort', target=0, cycles=
             if rec['kind'] not in ft.NEGOTIATION_COROS or all(t is not x for x in T):
                 return
             i = next(k for k, x in enumerate(T) if x is t)
-            others = [r for r in ft.live_negotiations(loop, t) if r is not rec]
+            others = [r for r in ft.live_negotiations(loop, t) if r is not rec and _slot(r) == _slot(rec)]
             if t._state_lock.locked():
                 cause.setdefault(i, 'started_during_transition')
             elif others:
@@ -186,13 +199,23 @@ def h_cancel(c, kind='download', init=('QUEUED',), op='abort', target=0, cycles=
         loop.on_task = on_task
 
         def observe():
+            if peer_starts and tgt.state.VALUE == ST.DOWNLOADING:
+                c.reach('download_in_progress')
+                if op_box['task'] is not None and not op_box['task'].done():
+                    c.reach('call_during_download')
             for i, t in enumerate(T):
                 live = ft.live_negotiations(loop, t)
                 if live:
                     handles = t.get_tasks()
-                    if any(all(r['task'] is not h for h in handles) for r in live):
-                        cause.setdefault(i, 'handle_cleared_by_older_task')
-                if len(live) > 1 and i not in reported:
+                    lost = [r for r in live if all(r['task'] is not h for h in handles)]
+                    if lost:
+                        older = any(x['transfer'] is t and _slot(x) == _slot(lost[0]) and x['task'].done() for x in loop.task_log)
+                        cause.setdefault(i, 'handle_cleared_by_older_task' if older else 'handle_dropped')
+                # one remote-queue attempt and one initialisation may coexist (the peer starts the transfer
+                # while our queue request is still on its way): they sit in different handles and are both
+                # reached by cancel_tasks().  Two tasks for the same handle are never legitimate.
+                per_slot = [sum(1 for r in live if _slot(r) == k) for k in ('remote_queue', 'transfer')]
+                if max(per_slot) > 1 and i not in reported:
                     reported.add(i)
                     c.reach('two_negotiations_seen')
                     c.check(False, 'single_negotiation_in_flight', sig=[kind, init[i], cause.get(i, 'unknown'), 'scenario'],
@@ -201,8 +224,9 @@ def h_cancel(c, kind='download', init=('QUEUED',), op='abort', target=0, cycles=
         opcall = {'abort': w.manager.abort, 'pause': w.manager.pause, 'remove': w.manager.remove}[op]
         op_step = c.fresh_int('op_step', 0, max_steps)
         op_task = None
+        op_box = {'task': None}
         injected = replied = s = 0
-        broke = requeued = 0
+        broke = requeued = requested = connected = 0
         while True:
             observe()
             if op_task is not None and op_task.done():
@@ -211,7 +235,7 @@ def h_cancel(c, kind='download', init=('QUEUED',), op='abort', target=0, cycles=
                 raise symex.BoundHit('scenario longer than the step bound')
             if op_task is None and _at(c, op_step, s):
                 c.note(f't={loop.time():.2f} step={loop.steps} user calls {op}(transfer {target}) state={tgt.state.VALUE.name}')
-                op_task = loop.spawn(opcall(tgt), name='user-call')
+                op_task = op_box['task'] = loop.spawn(opcall(tgt), name='user-call')
             s += 1
             if loop.step():
                 continue
@@ -230,7 +254,26 @@ def h_cancel(c, kind='download', init=('QUEUED',), op='abort', target=0, cycles=
                     options.append('write_error')
                 if tgt.state.VALUE == ST.FAILED and broke and not requeued:
                     options.append('peer_requeues')
+            if peer_starts and op_task is None:
+                # the uploader still had the file queued and starts the transfer itself: PeerTransferRequest
+                # over its own connection, then its file connection arrives with the ticket
+                fut = w.manager._file_connection_futures.get(TICKET)
+                if not requested and tgt.state.VALUE in (ST.QUEUED, ST.INCOMPLETE, ST.FAILED):
+                    options.append('peer_transfer_request')
+                elif requested and not connected and fut is not None and not fut.done():
+                    options.append('file_connection_arrives')
             what = c.pick(options, 'idle') if len(options) > 1 else 'wait'
+            if what == 'peer_transfer_request':
+                requested = 1
+                size = c.fresh_int('offered_filesize', 4, 2 ** 64 - 1)
+                msg = PeerTransferRequest.Request(direction=1, ticket=TICKET, filename=tgt.remote_path, filesize=size)
+                loop.spawn(w.manager._on_peer_transfer_request(msg, _PeerConn('peer0')), name='peer-transfer-request')
+            elif what == 'file_connection_arrives':
+                connected = 1
+                fc = ft.FakeFileConnection(w.net, 'peer0')
+                fc.ticket = TICKET
+                w.net.file_connections.append(fc)
+                loop.spawn(w.manager._on_peer_initialized(PeerInitializedEvent(fc, requested=False)), name='file-connection')
             if what == 'write_error':
                 broke = 1
                 loop.call(conn.release.set_exception, ConnectionWriteError('fake: connection reset'))
@@ -259,7 +302,7 @@ def h_cancel(c, kind='download', init=('QUEUED',), op='abort', target=0, cycles=
                 # last point: everything has settled (or only hanging connection attempts are left)
                 c.assume(op_step >= s)
                 c.note(f't={loop.time():.2f} step={loop.steps} user calls {op}(transfer {target}) state={tgt.state.VALUE.name}')
-                op_task = loop.spawn(opcall(tgt), name='user-call')
+                op_task = op_box['task'] = loop.spawn(opcall(tgt), name='user-call')
         c.reach('op_done')
         err = op_task.exception() if not op_task.cancelled() else asyncio.CancelledError()
         if err is not None:
@@ -334,7 +377,9 @@ META = {
     'functions': [TransferManager.manage_transfers, TransferManager._get_queued_transfers, TransferManager._prioritize_uploads,
                   TransferManager.get_free_upload_slots, TransferManager.abort, TransferManager.pause, TransferManager.remove,
                   TransferManager.add, TransferManager._queue_remotely, TransferManager._initialize_upload,
-                  TransferManager._upload_file, TransferManager._management_job, TransferManager.request_management_cycle,
+                  TransferManager._upload_file, TransferManager._on_peer_transfer_request, TransferManager._initialize_download,
+                  TransferManager._download_file, TransferManager._on_peer_initialized, TransferManager._calculate_offset,
+                  TransferManager._prepare_download_path, Transfer.reset_queue_vars, TransferManager._management_job, TransferManager.request_management_cycle,
                   TransferManager.on_transfer_state_changed, TransferManager.manage_user_tracking,
                   Transfer.cancel_tasks, Transfer.get_tasks, Transfer._remotely_queue_task_complete, Transfer._transfer_task_complete,
                   Transfer.transition, Transfer.increase_queue_attempts, Transfer.reset_queue_attempts,
@@ -344,7 +389,8 @@ META = {
                   TransferState._cancel_transfer_tasks, BackgroundTask.runner],
     'stubs': ['Network -> engine.fakes_transfer.FakeNetwork (send_peer_messages / create_peer_connection end as chosen by the '
               'harness after a virtual delay, cancellation propagates; create_peer_response_future is a plain future)',
-              'file connection -> FakeFileConnection (ticket/offset exchange succeeds, send_file blocks until released)',
+              'file connection -> FakeFileConnection (ticket/offset exchange succeeds, send_file / receive_file block until released); '
+              'the peer message connection of the PeerTransferQueue / PeerTransferRequest handlers -> recorder',
               'SharesManager -> FakeShares (every file shared, fixed size)',
               'UserManager.track_user / untrack_user -> no-op coroutines (tracking traffic is C15)',
               'time.monotonic / time.time in aioslsk.transfer.manager and .model -> virtual clock of the loop',
@@ -360,7 +406,8 @@ META = {
     'discriminants': ['direction and owner of each transfer (job parameters)', 'transfer state (symbolic index, forked lazily by the code)',
                       'initial state QUEUED / INCOMPLETE / FAILED-without-reason', 'user call abort / pause / remove',
                       'outcome of every peer send (ok, slow ok, slow error[, immediate error])',
-                      'idle-point events: extra management cycle, transfer reply, write error while uploading, peer re-queues the file'],
+                      'idle-point events: extra management cycle, transfer reply, write error while uploading, peer re-queues the file, '
+                      'peer sends PeerTransferRequest for the download, its file connection arrives'],
     'bounds': {'quick': {'step_shapes': 'U, D, UU (same/different user), UD, DD', 'scenario_transfers': '1..2 for one peer', 'peer_sends': 2,
                          'extra_cycles': 1, 'replies': 1, 'loop_steps': 90, 'clock_after_return': '200 s'},
                'thorough': {'step_shapes': 'all shapes of <= 3 transfers (owner patterns among uploads), UUUU x 2, UUUD',
@@ -369,7 +416,7 @@ META = {
                             'replies': 1, 'loop_steps': 140, 'outcomes': 'downloads: plus immediate error', 'clock_after_return': '200 s'}},
     'outside': ['more management cycles / sends / transfers than the bound', 'real connection code (connect race, indirect connection: C10/C11)',
                 'messages initiated by the peer after the call (PeerTransferRequest for an aborted download is answered with a refusal - '
-                'a legitimate reply, not exercised here)', 'download initialisation (_initialize_download) after a PeerTransferRequest',
+                'a legitimate reply, not exercised here)', 'download histories beyond "the peer starts the transfer and the read is pending" (read errors, completion)',
                 'TransferStateListeners other than the manager', 'stale-state dispatch in _with_state_lock (C03)'],
     'assumptions': ['asyncio Task/Future/Queue/Lock semantics of CPython 3.12 (FIFO ready queue)',
                     'Network.send_peer_messages suspends at least once and propagates cancellation'],
@@ -420,6 +467,18 @@ def jobs(tier):
                 for target in (0, 1):
                     out.append({'harness': 'cancel', 'fn': h_cancel,
                                 'params': dict(kind='download', init=[st, 'QUEUED'], op=op, target=target, **sc), 'requires': req})
+        # the uploader starts the transfer itself while our remote-queue attempt hangs: the call comes during
+        # INITIALIZING / DOWNLOADING and has to reach both tasks
+        preq = req + ['download_in_progress', 'call_during_download']
+        for st in (['QUEUED'] if q else ['QUEUED', 'INCOMPLETE', 'FAILED']):
+            out.append({'harness': 'cancel', 'fn': h_cancel,
+                        'params': dict(kind='download', init=[st], op=op, target=0, peer_starts=True, cycles=0 if q else 1,
+                                       sends=1 if q else 2, outcomes=['slow_ok', 'slow_err'] if q else ['ok', 'slow_ok', 'slow_err']),
+                        'requires': preq})
+        if not q:
+            out.append({'harness': 'cancel', 'fn': h_cancel,
+                        'params': dict(kind='download', init=['QUEUED', 'QUEUED'], op=op, target=0, peer_starts=True, cycles=0,
+                                       sends=2, outcomes=['slow_ok', 'slow_err']), 'requires': preq})
         out.append({'harness': 'cancel', 'fn': h_cancel, 'params': dict(kind='upload', init=['QUEUED'], op=op, target=0, **upsc),
                     'requires': req})
         if not q or op == 'abort':
